@@ -4,7 +4,10 @@ The stage runs the C18 harness in dump mode (`--arg only=dump`): the real phosg 
 under ASan/UBSan and every (input, text) pair is written to `<out>.c18dump`.  This module then judges
 each line with CPython only:
 
-  T <t> <text>            text must equal (datetime(1970,1,1) + timedelta(seconds=t // 10**6)) rendered as
+  T <t> <text> [pair:<family>]
+                          (the optional 4th column marks a call made as part of a same-thread call pair f(a), f(a+d),
+                          d of that delta family: judged exactly like every other line, reported as py:format_time:pair:<part>)
+                          text must equal (datetime(1970,1,1) + timedelta(seconds=t // 10**6)) rendered as
                           %Y-%m-%d %H:%M:%S plus '.' and exactly t % 10**6 as six digits.  datetime's
                           proleptic-Gregorian ordinal arithmetic shares no code with gmtime_r/strftime.
   D <usecs> <p> <text>    [d:][hh:][mm:]ss[.f{p}] shape, inner fields two digits, and
@@ -122,6 +125,7 @@ def judge_file(path):
             try:
                 if parts[0] == "T":
                     t, text = int(parts[1]), parts[2]
+                    tag = parts[3] if len(parts) > 3 else ""
                     if t > T_MAX:
                         continue
                     want = expected_time(t)
@@ -129,8 +133,17 @@ def judge_file(path):
                     if text != want:
                         part = "shape" if len(text) != len(want) else "microseconds" if text[:19] == want[:19] else \
                             "time-of-day" if text[:10] == want[:10] else "date"
-                        viol("py:format_time:" + part, "format_time differs from CPython datetime (UTC)",
-                             "format_time(%d) = \"%s\" expected \"%s\"" % (t, text, want))
+                        if tag:
+                            viol("py:format_time:pair:" + part,
+                                 "format_time differs from CPython datetime (UTC) in a same-thread call pair "
+                                 "f(a), f(a + d)",
+                                 "format_time(%d) = \"%s\" expected \"%s\"  {delta family of this call to the "
+                                 "previous format_time call: %s}" % (t, text, want, tag[5:]))
+                        else:
+                            viol("py:format_time:" + part, "format_time differs from CPython datetime (UTC)",
+                                 "format_time(%d) = \"%s\" expected \"%s\"" % (t, text, want))
+                    if tag:
+                        cls("py:time:" + tag)
                     y = int(want[:4])
                     leap = (y % 4 == 0 and y % 100 != 0) or y % 400 == 0
                     cls("py:time:%s:%s" % ("%dxxx" % (y // 1000), "feb29" if want[5:10] == "02-29" else
